@@ -363,8 +363,15 @@ func (h *Handler) handleCopyMove(w http.ResponseWriter, r *http.Request) (status
 	if dst == "" {
 		return http.StatusBadGateway, errInvalidDestination
 	}
-	if dst == src {
+	// Compare the names as the FileSystem sees them: "/a/" and "/a/b/.." denote
+	// the same resource as "/a". Overwriting the source itself or one of its
+	// ancestors would delete the source before it is copied or moved.
+	cleanSrc, cleanDst := slashClean(src), slashClean(dst)
+	if cleanDst == cleanSrc {
 		return http.StatusForbidden, errDestinationEqualsSource
+	}
+	if cleanDst == "/" || strings.HasPrefix(cleanSrc, cleanDst+"/") {
+		return http.StatusForbidden, errDestinationCoversSource
 	}
 
 	ctx := r.Context()
@@ -738,6 +745,7 @@ func StatusText(code int) string {
 
 var (
 	errDestinationEqualsSource = errors.New("webdav: destination equals source")
+	errDestinationCoversSource = errors.New("webdav: destination is an ancestor of source")
 	errDirectoryNotEmpty       = errors.New("webdav: directory not empty")
 	errInvalidDepth            = errors.New("webdav: invalid depth")
 	errInvalidDestination      = errors.New("webdav: invalid destination")
